@@ -78,7 +78,19 @@ def run_history(c05, p, stack, ops):
             obs.append(got)
         elif op[0] == "T":
             for st in op[1]:
+                # edit-locality: an in-place edit of ONE named level object (its not_contains list appended to / an entry
+                # removed, its pattern text changed) leaves every OTHER level's pattern and not_contains as they were — the
+                # oracle below reads the objects' current attributes, so an edit that leaks into a sibling through a shared
+                # list object would otherwise be believed
+                named = st[1] if st[0] in ("nc_add", "nc_del") or (st[0] == "sub" and st[1] != "*") else None
+                snap = {k: (pat, list(nc)) for k, pat, nc in levels_now(drv)} if named else None
                 gen_prompts.apply_step(drv, st)
+                if snap is not None:
+                    now = {k: (pat, list(nc)) for k, pat, nc in levels_now(drv)}
+                    leaked = sorted(k for k in snap if k != named and k in now and now[k] != snap[k])
+                    if leaked:
+                        fails.append((i, "edit-leak", "edit %r of level %r only" % (st, named),
+                                      "also changed %s: %s" % (leaked, {k: now[k][1] for k in leaked})))
             obs.append(None)
         elif op[0] == "G":
             s, trail = bytes.fromhex(op[1]), bytes.fromhex(op[2])
@@ -277,6 +289,22 @@ def edit_histories(c05, rep, rx, plats, rng, thorough, info_all, coq_bytes, coq_
                 return False
             if h:
                 hists.append(h)
+        # fixed on every run (oracle-only, not among the model's histories): every level whose not_contains is empty gets an
+        # entry appended IN PLACE and taken away again — the edit must stay with that level (edit-locality, see run_history)
+        fixed = c05.make_real_driver(p, "base")
+        for name, lvl in list(fixed.privilege_levels.items()):
+            if not list(lvl.not_contains):
+                fops = [["T", [["nc_add", name, "zz-q", "append"]]], ["T", [["nc_del", name, "zz-q"]]]]
+                for stack in ("sync", "async"):
+                    _, ffails = run_history(c05, p, stack, fops)
+                    stats["histories"] += 1
+                    rep.case(("edit-local", p, stack, name))
+                    for i, what, want, got in ffails[:1]:
+                        stats["failures"] += 1
+                        if stats["failures"] <= 4:
+                            rep.violation("%s (%s): %s %s — level objects of one connection share state" % (p, stack, want, got),
+                                          {"kind": "edit-history", "platform": p, "stack": stack, "ops": fops, "failing_op": i,
+                                           "prompt": "", "expected": want, "observed": got, "edit": ["nc_add"]})
         states, terms, meta = [], [], []
         for ops, hk, nd in hists:
             sts = history_states(ops)
@@ -295,6 +323,11 @@ def edit_histories(c05, rep, rx, plats, rng, thorough, info_all, coq_bytes, coq_
                     if stats["failures"] > 4:
                         continue
                     op = ops[i]
+                    if what == "edit-leak":
+                        rep.violation("%s (%s): %s %s — level objects of one connection share state" % (p, stack, want, got),
+                                      {"kind": "edit-history", "platform": p, "stack": stack, "ops": ops, "failing_op": i,
+                                       "prompt": "", "expected": want, "observed": got, "edit": hk})
+                        continue
                     t = bytes.fromhex(op[1]).decode("latin-1")
                     replay = {"kind": "edit-history", "platform": p, "stack": stack, "ops": ops, "failing_op": i,
                               "prompt": t, "expected": want, "observed": got, "edit": hk}
@@ -392,6 +425,9 @@ def replay_history(c05, r):
         else:
             print("  %2d  %s %r -> %r" % (i, "classify" if op[0] == "Q" else "get_prompt", bytes.fromhex(op[1]).decode("latin-1"), obs[i]))
     for i, what, want, got in fails:
+        if what == "edit-leak":
+            print("op %d: %s %s" % (i, want, got))
+            continue
         print("op %d (%s) on %r: observed %r, expected %r (current level patterns)" % (i, what, bytes.fromhex(ops[i][1]).decode("latin-1"), got, want))
     print("property FAILS on this history" if fails else "property holds on this history")
     return 1 if fails else 0
